@@ -71,6 +71,15 @@ def worker(job, extra):
     other = gen.gen_spec(seed + 7777777, {'horizons': [5.0, 8.0], 'p_exact': 0.3})
     run_fresh(other, 5)
     cmp('interleaved', outcome(run_fresh(spec, seed)))
+    # ... and after a simulation that died half-way (an invalid sample raises ValueError inside the event loop)
+    def crashing():
+        ctr = [0, False]
+        N0, skw0 = gen.build(other, fault=('srv', 5, -1.0, ctr))
+        ciw.seed(11)
+        Q0 = CapSim(N0, **skw0); Q0._cap = 3000
+        Q0.simulate_until_max_time(other['run']['T'])
+    guarded(crashing, wall=20)
+    cmp('after_crashed_simulation', outcome(run_fresh(spec, seed)))
     # reuse one Network object
     def build_net():
         N, _ = gen.build(spec)
